@@ -342,10 +342,54 @@ func (e *OpEngine) RunActivationGradientChecks(maxRank int) {
 							want = dz
 						}
 						e.compareGrad("C15.gradient", key, "X", pos, label, x, want, "upstream · activation'(h) · dh/dx", true)
+						// the activation's INPUT is the intermediate h: it must itself hold upstream · activation'(h)
+						e.compareGrad("C15.gradient", key, "h", pos, label, hT, sym.Div(want, k), "upstream · activation'(h) at the intermediate input", false)
 					})
 				}
 			}
 		}
+	}
+	// extreme-range probe: |x| up to 700 with a unit chain factor; the gradient interval must stay free of NaN
+	for _, d := range defs {
+		d := d
+		if d.name == "LeakyRelu" && d.suffix != " M=0.01" {
+			continue
+		}
+		fwd := e.fn(core.PkgActs, "(*"+d.name+").Forward")
+		key := "activations.(*" + d.name + ").Forward/gradient"
+		if fwd == nil {
+			continue
+		}
+		label := d.name + d.suffix + " extreme range |x| <= 700"
+		e.RunBody(key, label, 100, func() {
+			act, ok := d.ctor(e, key, label)
+			if !ok {
+				return
+			}
+			x := e.mkTensor("X", TensorArg{Dims: nil, Tracked: true, Rng: spec.Rng(-700, 700)})
+			g := e.mkTensor("G", TensorArg{Dims: nil, Rng: spec.Rng(-1e3, 1e3)})
+			hT, ok := e.callMethod(key, label, "Scale", x, interp.FloatC(1))
+			if !ok {
+				return
+			}
+			out, ok := e.call(key, label, fwd, []interp.Value{act, e.tensorsArg(e.W.Boxed(hT))})
+			if !ok || isErrVal(out.Results[1]) {
+				return
+			}
+			y, _ := e.W.AsTensor(out.Results[0])
+			z, ok := e.callMethod(key, label, "Mul", y, e.W.Boxed(g))
+			if !ok || !e.backprop(key, label, z) {
+				return
+			}
+			e.did("A3.finite", key)
+			gt, has := e.gradientOf(x)
+			if !has {
+				return
+			}
+			if rg := e.W.InfoOf(gt).Rng; rg.NaN {
+				e.find("A3.finite", key, "X:nan-at-extremes", e.P.FuncPos(fwd), fmt.Sprintf("the gradient may be NaN (%s) for inputs of magnitude up to 700 (0·Inf or Inf-Inf in the backward pass) [instance %s]", rg.String(), label))
+			}
+		})
 	}
 	// Softmax: p_i (g_i - Σ_j p_j g_j) along the configured dimension
 	fwd := e.fn(core.PkgActs, "(*Softmax).Forward")
